@@ -1,2 +1,1155 @@
-// Package c07 is the check for property C07 (see DESIGN.md section 3).
+// Package c07 is the check for property C07: formatting preserves meaning and comments and is
+// idempotent.
+//
+// Bounded-exhaustive exploration of the real formatter (parser.Parse -> bufformat.FormatFileNode):
+// every seed text (all inputs under /repo/private/buf/bufformat/testdata plus hand-written texts that
+// cover every node kind) is tokenised; for EVERY token gap and EVERY decoration of a fixed alphabet
+// (comments of both styles in several placements, blank line, line break, ';', whitespace removal)
+// the decorated text is formatted, and the thorough tier does the same for every pair of decorations
+// in every pair of adjacent gaps. Oracles are independent of bufformat: the unlinked descriptor
+// produced by protocompile for input and output, the lexical comment multiset, protoc's comment
+// attribution (protocompile/sourceinfo) and a second formatting pass.
 package c07
+
+import (
+	"context"
+	"fmt"
+	"hash/fnv"
+	"os"
+	"path/filepath"
+	"reflect"
+	"sort"
+	"strings"
+	"sync"
+	"sync/atomic"
+	"time"
+
+	"github.com/bufbuild/bufverif/internal/bufx"
+	"github.com/bufbuild/bufverif/internal/evid"
+	"github.com/bufbuild/protocompile/ast"
+	"google.golang.org/protobuf/proto"
+)
+
+func init() {
+	evid.Register(&evid.Check{ID: "C07", Level: "exploration", Run: run,
+		QuickBudget: 5 * time.Minute, ThoroughBudget: 14 * time.Minute})
+}
+
+const testdataDir = "/repo/private/buf/bufformat/testdata"
+
+type seed struct {
+	Name string
+	Text string
+	toks []token
+}
+
+// token is a non-comment lexical token of a seed (the last one is the zero-length EOF token).
+type token struct {
+	start, end int
+	role       string // parent AST node type + token class
+}
+
+// Case is what is written to evidence / replays for one explored input.
+type Case struct {
+	Seed        string   `json:"seed"`
+	Gaps        []int    `json:"gaps,omitempty"`
+	Decorations []string `json:"decorations,omitempty"`
+	Context     string   `json:"context,omitempty"`
+	Input       string   `json:"input"`
+	Output      string   `json:"output,omitempty"`
+	Detail      string   `json:"detail,omitempty"`
+	hint        int      // offset of the (first) decoration in Input, -1 for none
+	site        string   // roles of the tokens around the (first) decorated gap, without the decoration
+	// formatter to drive; nil = bufformat.FormatFileNode on the parsed input
+	fmtFn func(text string) (out string, err error, panicked string)
+}
+
+func loadSeeds() ([]seed, error) {
+	var seeds []seed
+	err := filepath.Walk(testdataDir, func(p string, info os.FileInfo, err error) error {
+		if err != nil {
+			return err
+		}
+		if info.IsDir() || !strings.HasSuffix(p, ".proto") || strings.HasSuffix(p, ".golden.proto") {
+			return nil
+		}
+		b, err := os.ReadFile(p)
+		if err != nil {
+			return err
+		}
+		rel, _ := filepath.Rel(testdataDir, p)
+		seeds = append(seeds, seed{Name: "testdata/" + filepath.ToSlash(rel), Text: string(b)})
+		return nil
+	})
+	if err != nil {
+		return nil, err
+	}
+	sort.Slice(seeds, func(i, j int) bool { return seeds[i].Name < seeds[j].Name })
+	for _, s := range ownSeeds {
+		seeds = append(seeds, seed{Name: "own/" + s.Name, Text: s.Text})
+	}
+	return seeds, nil
+}
+
+func typeName(n ast.Node) string {
+	if n == nil {
+		return "nil"
+	}
+	t := reflect.TypeOf(n)
+	for t.Kind() == reflect.Ptr {
+		t = t.Elem()
+	}
+	return strings.TrimSuffix(t.Name(), "Node")
+}
+
+func tokenClass(n ast.Node) string {
+	switch x := n.(type) {
+	case *ast.RuneNode:
+		if x.Rune == 0 {
+			return "EOF"
+		}
+		return "'" + string(x.Rune) + "'"
+	case *ast.KeywordNode:
+		return x.Val
+	case *ast.IdentNode:
+		return "ident"
+	case *ast.StringLiteralNode:
+		return "string"
+	case *ast.UintLiteralNode:
+		return "int"
+	case *ast.FloatLiteralNode:
+		return "float"
+	case *ast.SpecialFloatLiteralNode:
+		return x.KeywordNode.Val
+	}
+	return typeName(n)
+}
+
+// rolesOf gives every token of a parsed file a structural role: parent AST node type + token class.
+func rolesOf(file *ast.FileNode) map[ast.Token]string {
+	roles := map[ast.Token]string{}
+	tracker := &ast.AncestorTracker{}
+	visitor := &ast.SimpleVisitor{
+		DoVisitTerminalNode: func(n ast.TerminalNode) error {
+			parent := tracker.Parent()
+			role := typeName(parent) + "." + tokenClass(n)
+			if path := tracker.Path(); len(path) >= 3 {
+				switch parent.(type) {
+				case *ast.CompoundIdentNode, *ast.FieldReferenceNode, *ast.OptionNameNode, *ast.RangeNode,
+					*ast.NegativeIntLiteralNode, *ast.SignedFloatLiteralNode, *ast.CompoundStringLiteralNode:
+					role = typeName(path[len(path)-3]) + "." + role
+				}
+			}
+			roles[n.Token()] = role
+			return nil
+		},
+	}
+	_ = ast.Walk(file, visitor, tracker.AsWalkOptions()...)
+	if file.EOF != nil {
+		roles[file.EOF.Token()] = "File.EOF"
+	}
+	return roles
+}
+
+// attributionOf finds the token to which protocompile's lexer attributed the comment with the given
+// normalised text: "leading-of-<role>" or "trailing-of-<role>".
+// When several comments have that text, the one closest to offset hint is taken.
+func attributionOf(file *ast.FileNode, norm string, hint int) string {
+	roles := rolesOf(file)
+	seq := file.Tokens()
+	best, bestDist := "unattributed", -1
+	consider := func(c ast.Comment, what string) {
+		if normComment(c.RawText()) != norm {
+			return
+		}
+		d := 0
+		if hint >= 0 {
+			d = c.Start().Offset - hint
+			if d < 0 {
+				d = -d
+			}
+		}
+		if bestDist < 0 || d < bestDist {
+			best, bestDist = what, d
+		}
+	}
+	prevHasTrailing := false
+	for t, ok := seq.First(); ok; t, ok = seq.Next(t) {
+		info := file.TokenInfo(t)
+		role := roles[t]
+		if role == "" {
+			role = "?"
+		}
+		lc := info.LeadingComments()
+		for i := 0; i < lc.Len(); i++ {
+			consider(lc.Index(i), "leading-of-"+role)
+		}
+		tc := info.TrailingComments()
+		for i := 0; i < tc.Len(); i++ {
+			what := "trailing-of-" + role
+			if role == "MessageLiteral.','" || role == "MessageLiteral.';'" {
+				// the printer drops the separator and moves its trailing comments to the value,
+				// unless the value has trailing comments of its own
+				if prevHasTrailing {
+					what += "/value-has-own-trailing-comment"
+				} else {
+					what += "/value-without-trailing-comment"
+				}
+			}
+			consider(tc.Index(i), what)
+		}
+		prevHasTrailing = tc.Len() > 0
+	}
+	return normAttribution(best)
+}
+
+// normAttribution merges attributions that are one code path in the printer.
+func normAttribution(a string) string {
+	kind, role, ok := strings.Cut(a, "-of-")
+	if !ok {
+		return a
+	}
+	role, suffix, _ := strings.Cut(role, "/")
+	if suffix != "" {
+		suffix = "/" + suffix
+	}
+	switch {
+	case role == "EmptyDecl.';'":
+		return "on-empty-statement" // EmptyDeclNode is never printed: leading and trailing alike
+	case role == "MessageLiteral.','" || role == "MessageLiteral.';'":
+		return kind + "-of-MessageLiteral-separator" + suffix
+	case strings.HasPrefix(role, "OptionName.FieldReference."):
+		return kind + "-of-OptionName-token"
+	}
+	return a
+}
+
+type commentAt struct {
+	norm   string
+	offset int
+}
+
+func commentsRaw(file *ast.FileNode) []string {
+	var out []string
+	seq := file.Items()
+	for it, ok := seq.First(); ok; it, ok = seq.Next(it) {
+		if _, c := file.GetItem(it); c.IsValid() {
+			out = append(out, c.RawText())
+		}
+	}
+	return out
+}
+
+func commentsInOrder(file *ast.FileNode) []commentAt {
+	var out []commentAt
+	seq := file.Items()
+	for it, ok := seq.First(); ok; it, ok = seq.Next(it) {
+		if _, c := file.GetItem(it); c.IsValid() {
+			out = append(out, commentAt{normComment(c.RawText()), c.Start().Offset})
+		}
+	}
+	return out
+}
+
+// lostInstanceOffset aligns the comment sequences of input and output (longest common subsequence)
+// and returns the offset of the first unmatched input comment with the given text (or fallback).
+func lostInstanceOffset(in, out *ast.FileNode, text string, fallback int) int {
+	a, b := commentsInOrder(in), commentsInOrder(out)
+	n, m := len(a), len(b)
+	if n*m > 4_000_000 {
+		return fallback
+	}
+	l := make([][]int32, n+1)
+	for i := range l {
+		l[i] = make([]int32, m+1)
+	}
+	for i := n - 1; i >= 0; i-- {
+		for j := m - 1; j >= 0; j-- {
+			if a[i].norm == b[j].norm {
+				l[i][j] = l[i+1][j+1] + 1
+			} else if l[i+1][j] >= l[i][j+1] {
+				l[i][j] = l[i+1][j]
+			} else {
+				l[i][j] = l[i][j+1]
+			}
+		}
+	}
+	// Two extreme alignments: match equal heads eagerly (the unmatched instance is the latest possible)
+	// or skip an input comment whenever that costs nothing (the earliest possible).
+	walk := func(eagerSkip bool) int {
+		i, j := 0, 0
+		for i < n {
+			switch {
+			case eagerSkip && l[i+1][j] == l[i][j]:
+				if a[i].norm == text {
+					return a[i].offset
+				}
+				i++
+			case j < m && a[i].norm == b[j].norm:
+				i++
+				j++
+			case j < m && l[i][j+1] > l[i+1][j]:
+				j++
+			default:
+				if a[i].norm == text {
+					return a[i].offset
+				}
+				i++
+			}
+		}
+		return fallback
+	}
+	late, early := walk(false), walk(true)
+	if late != early {
+		// ambiguous (same text twice with nothing pinned in between): a comment on a token that the
+		// printer never prints is the lost one
+		for _, off := range []int{early, late} {
+			at := attributionOf(in, text, off)
+			if at == "on-empty-statement" || strings.Contains(at, "MessageLiteral-separator") {
+				return off
+			}
+		}
+	}
+	return late
+}
+
+// tokenise parses the seed with protocompile (not the code under test) and returns all tokens
+// with offsets and structural roles.
+func tokenise(s *seed) error {
+	file, err := parse(s.Name, s.Text)
+	if err != nil {
+		return err
+	}
+	roles := rolesOf(file)
+	seq := file.Tokens()
+	for t, ok := seq.First(); ok; t, ok = seq.Next(t) {
+		info := file.TokenInfo(t)
+		start := info.Start().Offset
+		raw := info.RawText()
+		role := roles[t]
+		if role == "" {
+			role = "?." + raw
+		}
+		s.toks = append(s.toks, token{start: start, end: start + len(raw), role: role})
+	}
+	if len(s.toks) == 0 {
+		return fmt.Errorf("no tokens")
+	}
+	return nil
+}
+
+// ---------------------------------------------------------------------------------------------
+// Decoration alphabet
+// ---------------------------------------------------------------------------------------------
+
+type decoration struct {
+	name string
+	// apply returns the replacement for the gap text (between the end of the previous token and the
+	// start of the next token) or ok=false when not applicable; tag is the unique comment word.
+	apply func(gap string, tag string) (string, bool)
+}
+
+func isSpaceOnly(s string) bool { return strings.TrimSpace(s) == "" }
+
+var decorations = []decoration{
+	{"blk-after", func(g, t string) (string, bool) { return "/*" + t + "*/" + g, true }},
+	{"line-after", func(g, t string) (string, bool) { return " //" + t + "\n" + g, true }},
+	{"blk-ownline", func(g, t string) (string, bool) { return g + "\n/*" + t + "*/\n", true }},
+	{"line-ownline", func(g, t string) (string, bool) { return g + "\n//" + t + "\n", true }},
+	{"blk-before", func(g, t string) (string, bool) { return g + "/*" + t + "*/", true }},
+	{"line-detached", func(g, t string) (string, bool) { return g + "\n\n//" + t + "\n\n", true }},
+	{"blank", func(g, t string) (string, bool) { return "\n\n" + g, true }},
+	{"newline", func(g, t string) (string, bool) { return "\n" + g, true }},
+	{"semicolon", func(g, t string) (string, bool) { return g + ";", true }},
+	{"strip-ws", func(g, t string) (string, bool) {
+		if g == "" || !isSpaceOnly(g) {
+			return "", false
+		}
+		return "", true
+	}},
+}
+
+func hasTag(d string) bool {
+	switch d {
+	case "blank", "newline", "semicolon", "strip-ws":
+		return false
+	}
+	return true
+}
+
+// variant builds the decorated text: decs[i] applied to gap gaps[i] (gaps ascending, distinct).
+func gapOffset(s *seed, g int) int {
+	if g > 0 {
+		return s.toks[g-1].end
+	}
+	return 0
+}
+
+func variant(s *seed, gaps []int, decs []int) (string, []string, bool) {
+	var sb strings.Builder
+	var tags []string
+	prev := 0
+	for k, g := range gaps {
+		gs, ge := 0, s.toks[g].start
+		if g > 0 {
+			gs = s.toks[g-1].end
+		}
+		tag := fmt.Sprintf("zq%dx%d", g, decs[k])
+		rep, ok := decorations[decs[k]].apply(s.Text[gs:ge], tag)
+		if !ok {
+			return "", nil, false
+		}
+		if hasTag(decorations[decs[k]].name) {
+			tags = append(tags, tag)
+		}
+		sb.WriteString(s.Text[prev:gs])
+		sb.WriteString(rep)
+		prev = ge
+	}
+	sb.WriteString(s.Text[prev:])
+	return sb.String(), tags, true
+}
+
+// gapSite is gapContext with the two message-literal bracket styles unified.
+func gapSite(s *seed, g int) string {
+	return strings.NewReplacer("'<'", "'{'", "'>'", "'}'").Replace(gapContext(s, g))
+}
+
+func gapContext(s *seed, g int) string {
+	prev := "BOF"
+	if g > 0 {
+		prev = s.toks[g-1].role
+	}
+	return prev + "|" + s.toks[g].role
+}
+
+// ---------------------------------------------------------------------------------------------
+// One explored case
+// ---------------------------------------------------------------------------------------------
+
+type stats struct {
+	variants, notApplicable, duplicateText, unparseable, formatted atomic.Int64
+	descCompared, flagsSkippedDupImports                           atomic.Int64
+	importsReordered, importsDeduped, fileOptsReordered            atomic.Int64
+	commentsCompared, tagsTracked                                  atomic.Int64
+	attachEligible, attachDemanded, tagAttachedInInput             atomic.Int64
+	roleChanged, detachedNotDemanded, inheritedFromSeed            atomic.Int64
+	idemChecked, outputDiffersFromInput                            atomic.Int64
+	pairCases, cliCases, cliExitChecked, cliChanged                atomic.Int64
+	perDecoration                                                  [16]atomic.Int64
+}
+
+type explorer struct {
+	r  *evid.Run
+	st stats
+	// base[seed] = keys of violations already present on the undecorated seed; a variant that
+	// merely inherits one of them is not reported again under the decoration's context.
+	base sync.Map
+}
+
+type finding struct {
+	oracle, key, detail, out string
+	sig                      string // structural signature; "" = oracle + decoration context
+}
+
+func hashText(s string) uint64 {
+	h := fnv.New64a()
+	h.Write([]byte(s))
+	return h.Sum64()
+}
+
+// check runs all oracles on one input text. ctx describes the decoration site for signatures.
+func (e *explorer) check(c Case, tags []string, isBase bool) {
+	var found []finding
+	e.check1(c, tags, func(oracle, key, detail, out, sig string) {
+		found = append(found, finding{oracle, key, detail, out, sig})
+	})
+	if isBase {
+		m := map[string]bool{}
+		for _, f := range found {
+			m[f.oracle+"\x00"+f.key] = true
+		}
+		e.base.Store(c.Seed, m)
+	}
+	var inherited map[string]bool
+	if !isBase {
+		if v, ok := e.base.Load(c.Seed); ok {
+			inherited = v.(map[string]bool)
+		}
+	}
+	for _, f := range found {
+		if inherited[f.oracle+"\x00"+f.key] {
+			e.st.inheritedFromSeed.Add(1)
+			continue
+		}
+		cc := c
+		cc.Output = f.out
+		cc.Detail = f.detail
+		sig := f.sig
+		if sig == "" {
+			sig = f.oracle + "/at/" + c.site
+		}
+		e.r.Violate(sig, f.oracle+": "+f.detail, cc)
+	}
+}
+
+func (e *explorer) check1(c Case, tags []string, violate func(oracle, key, detail, out, sig string)) {
+	r := e.r
+	st := &e.st
+	inFile, err := parse(c.Seed, c.Input)
+	if err != nil {
+		st.unparseable.Add(1)
+		return
+	}
+	r.Eval(1)
+	st.formatted.Add(1)
+
+	var out string
+	var ferr error
+	var panicked string
+	if c.fmtFn != nil {
+		out, ferr, panicked = c.fmtFn(c.Input)
+	} else {
+		out, ferr, panicked = format(inFile)
+	}
+	if panicked != "" {
+		violate("panic", panicked, panicked, "", "panic/"+panicClass(inFile, c.Context))
+		return
+	}
+	if ferr != nil {
+		violate("format-error", ferr.Error(), ferr.Error(), out, "")
+		return
+	}
+	if out != c.Input {
+		st.outputDiffersFromInput.Add(1)
+	}
+
+	// (1) the output parses
+	outFile, err := parse(c.Seed, out)
+	if err != nil {
+		sig := ""
+		for _, cm := range commentsRaw(inFile) {
+			if strings.HasPrefix(cm, "//") && strings.Contains(cm, "*/") {
+				sig = "output-unparseable/line-comment-containing-block-comment-end"
+			}
+		}
+		violate("output-unparseable", stripPos(err.Error()), err.Error(), out, sig)
+		return
+	}
+
+	// (2) same descriptors
+	inView, inRes, err1 := view(inFile)
+	outView, outRes, err2 := view(outFile)
+	if err1 != nil || err2 != nil {
+		r.Incomplete(fmt.Sprintf("no descriptor for %s: %v %v", c.Seed, err1, err2))
+		return
+	}
+	st.descCompared.Add(1)
+	if !proto.Equal(inView.fd, outView.fd) {
+		p, a, b := firstDiff(inView.fd.ProtoReflect(), outView.fd.ProtoReflect())
+		if sameUpToFileOptionOrder(inView, outView) {
+			p = "file-options-with-same-name-reordered"
+		}
+		violate("descriptor-changed:"+p, a+"\x00"+b, fmt.Sprintf("%s: input %q, output %q", p, a, b), out, "descriptor-changed/"+p)
+	}
+	if !reflect.DeepEqual(inView.deps, outView.deps) {
+		violate("descriptor-changed:dependency", "", fmt.Sprintf("imports %v -> %v", inView.deps, outView.deps), out, "descriptor-changed/dependency")
+	}
+	if inView.dupImports {
+		// A file that imports one path twice is rejected by the compiler (protocompile
+		// validateImports, protoc): it has no descriptors, and the formatter's documented
+		// de-duplication keeps one import per path. Only the path set is compared.
+		st.flagsSkippedDupImports.Add(1)
+		if len(outView.rawDeps) < len(inView.rawDeps) {
+			st.importsDeduped.Add(1)
+		}
+	} else {
+		if !reflect.DeepEqual(inView.public, outView.public) {
+			violate("descriptor-changed:public_dependency", "", fmt.Sprintf("public imports %v -> %v", inView.public, outView.public), out, "descriptor-changed/public_dependency")
+		}
+		if !reflect.DeepEqual(inView.weak, outView.weak) {
+			violate("descriptor-changed:weak_dependency", "", fmt.Sprintf("weak imports %v -> %v", inView.weak, outView.weak), out, "descriptor-changed/weak_dependency")
+		}
+	}
+	if !reflect.DeepEqual(inView.rawDeps, outView.rawDeps) {
+		st.importsReordered.Add(1)
+	}
+	if !reflect.DeepEqual(inView.fileOpts, outView.fileOpts) {
+		st.fileOptsReordered.Add(1)
+	}
+
+	// (3) every comment is still present (multiset of normalised comment texts)
+	inComments, outComments := commentsOf(inFile), commentsOf(outFile)
+	st.commentsCompared.Add(int64(len(inComments)))
+	st.tagsTracked.Add(int64(len(tags)))
+	missing, extra := multisetDiff(inComments, outComments)
+	for _, m := range missing {
+		// find which instance went missing (texts can repeat): align the comment sequences
+		c := c
+		c.hint = lostInstanceOffset(inFile, outFile, m, c.hint)
+		violate("comment-lost", m, fmt.Sprintf("comment %q of the input is not in the output (all missing %q, extra %q)", m, missing, extra), out, "comment-lost/"+attributionOf(inFile, m, c.hint))
+	}
+	for _, x := range extra {
+		violate("comment-added", x, fmt.Sprintf("comment %q occurs more often in the output than in the input (all missing %q, extra %q)", x, missing, extra), out, "comment-added/"+attributionOf(inFile, x, c.hint))
+	}
+
+	// (4) attached to the same declaration
+	inAtt, outAtt := attachmentsOf(inFile, inRes), attachmentsOf(outFile, outRes)
+	lost := map[string]bool{}
+	for _, m := range missing {
+		lost[m] = true // already reported as lost: not also as re-attached
+	}
+	e.checkAttachments(inFile, c.hint, lost, out, inComments, inAtt, outAtt, tags, violate)
+
+	// (5) idempotence
+	var out2 string
+	var ferr2 error
+	var panicked2 string
+	if c.fmtFn != nil {
+		out2, ferr2, panicked2 = c.fmtFn(out)
+	} else {
+		out2, ferr2, panicked2 = format(outFile)
+	}
+	st.idemChecked.Add(1)
+	switch {
+	case panicked2 != "":
+		violate("panic-second-pass", panicked2, panicked2, out, "")
+	case ferr2 != nil:
+		violate("format-error-second-pass", ferr2.Error(), ferr2.Error(), out, "")
+	case out2 != out:
+		d := firstLineDiff(out, out2)
+		sig := ""
+		if cl := idemClass(out, out2); cl != "" {
+			sig = "not-idempotent/" + cl
+		}
+		violate("not-idempotent", d[strings.Index(d, ":")+1:], "format(format(x)) != format(x): "+d, out, sig)
+	}
+}
+
+// declKind is the kind of the last element of a declaration key ("field", "dependency", ...).
+func declKind(key string) string {
+	last := key[strings.LastIndex(key, " > ")+1:]
+	last = strings.TrimPrefix(last, "> ")
+	if i := strings.Index(last, ":"); i >= 0 {
+		last = last[:i]
+	}
+	return last
+}
+
+// reattachClass: a comment that protoc attaches as trailing comment to a header declaration
+// (it sits on the line(s) below it and is followed by a blank line) but that the AST gives to the
+// next token travels with that next declaration when the header is sorted: one defect.
+func reattachClass(role, kind, attribution string) string {
+	header := map[string]bool{"syntax": true, "edition": true, "package": true, "dependency": true, "uninterpreted_option": true}
+	if role == "trailing" && header[kind] && strings.HasPrefix(attribution, "leading-of-") {
+		return "trailing-of-header-declaration/attributed-to-next-token"
+	}
+	return role + "-of-" + kind + "/" + attribution
+}
+
+// panicClass names the structural peculiarity of the input that goes with a formatter panic.
+func panicClass(file *ast.FileNode, ctx string) string {
+	class := ""
+	_ = ast.Walk(file, &ast.SimpleVisitor{
+		DoVisitFieldNode: func(n *ast.FieldNode) error {
+			if n.Tag == nil {
+				class = "field-without-tag"
+			}
+			return nil
+		},
+	})
+	if class != "" {
+		return class
+	}
+	return ctx
+}
+
+func charClass(b byte) string {
+	switch {
+	case b == ' ' || b == '\t':
+		return "space"
+	case b == '_' || b >= '0' && b <= '9' || b >= 'a' && b <= 'z' || b >= 'A' && b <= 'Z':
+		return "word"
+	}
+	return string(b)
+}
+
+// idemClass classifies the shape of the difference between the first and the second pass.
+func idemClass(out, out2 string) string {
+	if strings.HasPrefix(out, "\n") && !strings.HasPrefix(out2, "\n") {
+		return "blank-line-at-file-start"
+	}
+	la, lb := strings.Split(out, "\n"), strings.Split(out2, "\n")
+	for i := 0; i < len(la) && i < len(lb); i++ {
+		x, y := la[i], lb[i]
+		if x == y {
+			continue
+		}
+		nospace := func(s string) string { return strings.NewReplacer(" ", "", "\t", "").Replace(s) }
+		beforeComment := func(s string) string {
+			s = nospace(s)
+			for {
+				k := strings.Index(s, "/*")
+				if k < 0 {
+					break
+				}
+				e := strings.Index(s[k+2:], "*/")
+				if e < 0 {
+					s = s[:k]
+					break
+				}
+				s = s[:k] + s[k+2+e+2:]
+			}
+			if k := strings.Index(s, "//"); k >= 0 {
+				s = s[:k]
+			}
+			return strings.TrimSuffix(s, "]")
+		}
+		switch {
+		case strings.HasSuffix(x, "{") && strings.HasPrefix(nospace(y), nospace(x)+"}"):
+			return "body-with-only-empty-statements"
+		case nospace(x) == nospace(y):
+			k := 0
+			for k < len(x) && k < len(y) && x[k] == y[k] {
+				k++
+			}
+			prev := "BOL"
+			if k > 0 {
+				prev = charClass(x[k-1])
+			}
+			if k < len(x) && (x[k] == ' ' || x[k] == '\t') {
+				next := "EOL"
+				if k < len(y) {
+					next = charClass(y[k])
+				}
+				if prev == "(" || prev == "[" {
+					prev = "open-bracket"
+				}
+				return "second-pass-removes-space/" + prev + "_" + next
+			}
+			next := "EOL"
+			if k < len(x) {
+				next = charClass(x[k])
+			}
+			return "second-pass-adds-space/" + prev + "_" + next
+		case beforeComment(x) == beforeComment(y) && strings.HasSuffix(beforeComment(x), "}") && strings.HasPrefix(strings.TrimSpace(x), "{"):
+			return "comment-after-last-message-literal-of-array"
+		case y == "" && x != "":
+			return "second-pass-adds-blank-line"
+		case x == "" && y != "":
+			return "second-pass-removes-blank-line"
+		}
+		return ""
+	}
+	return ""
+}
+
+// stripPos removes the file:line:col prefix of a parser error.
+func stripPos(s string) string {
+	if i := strings.Index(s, ": "); i >= 0 {
+		return s[i+2:]
+	}
+	return s
+}
+
+func firstLineDiff(a, b string) string {
+	la, lb := strings.Split(a, "\n"), strings.Split(b, "\n")
+	for i := 0; i < len(la) || i < len(lb); i++ {
+		var x, y string
+		if i < len(la) {
+			x = la[i]
+		}
+		if i < len(lb) {
+			y = lb[i]
+		}
+		if x != y {
+			return fmt.Sprintf("line %d: first pass %q, second pass %q", i+1, x, y)
+		}
+	}
+	return ""
+}
+
+func wordContains(hay, needle string) bool {
+	return strings.Contains(" "+hay+" ", " "+needle+" ")
+}
+
+// checkAttachments: a lexical comment that protoc's rules attach to a declaration of the input must
+// be attached (in any role) to the declaration with the same name in the output.
+func (e *explorer) checkAttachments(inFile *ast.FileNode, hint int, lost map[string]bool, out string, inComments []string, inAtt, outAtt []attachment, tags []string, violate func(string, string, string, string, string)) {
+	st := &e.st
+	isTag := map[string]bool{}
+	for _, t := range tags {
+		isTag[t] = true
+	}
+	for i, cm := range inComments {
+		if cm == "" || lost[cm] || (i > 0 && inComments[i-1] == cm) || (i+1 < len(inComments) && inComments[i+1] == cm) {
+			continue // empty or not unique
+		}
+		// not contained in another comment of the input (source info merges adjacent comments)
+		ambiguous := false
+		for j, other := range inComments {
+			if j != i && wordContains(other, cm) {
+				ambiguous = true
+				break
+			}
+		}
+		if ambiguous {
+			continue
+		}
+		st.attachEligible.Add(1)
+		din := map[string]string{}
+		for _, a := range inAtt {
+			if wordContains(a.Text, cm) {
+				if a.Role == "detached" {
+					// protoc: detached comments "appear before (but not connected to)" the element
+					st.detachedNotDemanded.Add(1)
+					continue
+				}
+				din[a.Decl] = a.Role
+			}
+		}
+		if len(din) == 0 {
+			continue // not attached to any declaration: only presence is demanded
+		}
+		if isTag[cm] {
+			st.tagAttachedInInput.Add(1)
+		}
+		dout := map[string]string{}
+		for _, a := range outAtt {
+			if wordContains(a.Text, cm) {
+				dout[a.Decl] = a.Role
+			}
+		}
+		decls := make([]string, 0, len(din))
+		for d := range din {
+			decls = append(decls, d)
+		}
+		sort.Strings(decls)
+		for _, d := range decls {
+			st.attachDemanded.Add(1)
+			role, ok := dout[d]
+			if !ok {
+				var now []string
+				for d2, r2 := range dout {
+					now = append(now, r2+" of "+d2)
+				}
+				sort.Strings(now)
+				if len(now) == 0 {
+					now = []string{"no declaration"}
+				}
+				violate("comment-reattached:"+din[d], cm+"\x00"+d, fmt.Sprintf("comment %q is the %s comment of %s in the input but of %s in the output", cm, din[d], d, strings.Join(now, ", ")), out,
+					"comment-reattached/"+reattachClass(din[d], declKind(d), attributionOf(inFile, cm, hint)))
+				continue
+			}
+			if role != din[d] {
+				st.roleChanged.Add(1)
+			}
+		}
+	}
+}
+
+// ---------------------------------------------------------------------------------------------
+// CLI observation point: `buf format <file>`, `buf format -d --exit-code <file>`, `buf format -w`
+// ---------------------------------------------------------------------------------------------
+
+const exitCodeFileAnnotation = 100
+
+// cliPhase runs every undecorated seed through the in-process CLI: the text printed by
+// `buf format <file>` goes through the same oracles as the library output (and is formatted a second
+// time through the CLI), `-d --exit-code` must exit 100 exactly when that text differs from the
+// input and 0 otherwise, and after `-w` the file holds that text and `--exit-code` exits 0 iff the
+// second pass changed nothing.
+func (e *explorer) cliPhase(seeds []*seed) {
+	r := e.r
+	scratch, err := os.MkdirTemp("", "verif-c07-")
+	if err != nil {
+		r.Incomplete("cannot create scratch dir: " + err.Error())
+		return
+	}
+	defer os.RemoveAll(scratch)
+	var cliSeeds []*seed
+	for _, s := range seeds {
+		if v, ok := e.base.Load(s.Name); ok {
+			skip := false
+			for k := range v.(map[string]bool) {
+				if strings.HasPrefix(k, "panic") {
+					skip = true // a panic inside the CLI's worker goroutine would kill the harness
+				}
+			}
+			if skip {
+				continue
+			}
+		}
+		cliSeeds = append(cliSeeds, s)
+	}
+	r.ParallelFor(len(cliSeeds), 4, func(i int) {
+		s := cliSeeds[i]
+		dir := filepath.Join(scratch, fmt.Sprint(i))
+		if err := os.MkdirAll(dir, 0o755); err != nil {
+			r.Incomplete(err.Error())
+			return
+		}
+		path := filepath.Join(dir, "f.proto")
+		n := 0
+		cliFormat := func(text string) (string, error, string) {
+			n++
+			p := filepath.Join(dir, fmt.Sprintf("pass%d", n), "f.proto")
+			_ = os.MkdirAll(filepath.Dir(p), 0o755)
+			if err := os.WriteFile(p, []byte(text), 0o644); err != nil {
+				return "", err, ""
+			}
+			res := bufx.RunCLI(context.Background(), nil, "", "format", p)
+			if res.ExitCode != 0 {
+				return res.Stdout, fmt.Errorf("buf format exit %d: %s", res.ExitCode, stripScratch(res.Stderr, scratch)), ""
+			}
+			return res.Stdout, nil, ""
+		}
+		e.st.cliCases.Add(1)
+		e.check(Case{Seed: s.Name, Context: "cli", Input: s.Text, hint: -1, site: "cli", fmtFn: cliFormat}, nil, false)
+
+		if err := os.WriteFile(path, []byte(s.Text), 0o644); err != nil {
+			r.Incomplete(err.Error())
+			return
+		}
+		plain := bufx.RunCLI(context.Background(), nil, "", "format", path)
+		diff := bufx.RunCLI(context.Background(), nil, "", "format", "-d", "--exit-code", path)
+		if plain.ExitCode != 0 {
+			return // reported by the oracle run above
+		}
+		changed := plain.Stdout != s.Text
+		want := 0
+		if changed {
+			want = exitCodeFileAnnotation
+			e.st.cliChanged.Add(1)
+		}
+		e.st.cliExitChecked.Add(1)
+		if diff.ExitCode != want || (diff.Stdout != "") != changed {
+			r.Violate("cli-exit-code/diff", fmt.Sprintf("buf format -d --exit-code: exit %d, diff printed %v, but formatted text differs from input: %v",
+				diff.ExitCode, diff.Stdout != "", changed), Case{Seed: s.Name, Context: "cli", Input: s.Text, Output: plain.Stdout, Detail: stripScratch(diff.Stderr, scratch)})
+		}
+		w := bufx.RunCLI(context.Background(), nil, "", "format", "-w", path)
+		after, _ := os.ReadFile(path)
+		if w.ExitCode != 0 || string(after) != plain.Stdout {
+			r.Violate("cli-write/content", fmt.Sprintf("buf format -w: exit %d, file content equals `buf format` output: %v", w.ExitCode, string(after) == plain.Stdout),
+				Case{Seed: s.Name, Context: "cli", Input: s.Text, Output: string(after), Detail: stripScratch(w.Stderr, scratch)})
+		}
+	})
+	r.Set("cli_seeds_formatted", e.st.cliCases.Load())
+	r.Set("cli_exit_code_checked", e.st.cliExitChecked.Load())
+	r.Set("cli_seeds_changed_by_format", e.st.cliChanged.Load())
+	if e.st.cliChanged.Load() == 0 || e.st.cliChanged.Load() == e.st.cliExitChecked.Load() {
+		r.Incomplete("cli exit-code clause saw only one outcome")
+	}
+}
+
+func stripScratch(s, scratch string) string { return strings.ReplaceAll(s, scratch, "<scratch>") }
+
+// ---------------------------------------------------------------------------------------------
+// Enumeration
+// ---------------------------------------------------------------------------------------------
+
+func run(r *evid.Run) {
+	r.Rule("seeds = every non-golden .proto under bufformat/testdata + hand-written texts covering every AST node kind; " +
+		"for every seed: the undecorated text, and for EVERY token gap (before each token incl. EOF) x EVERY decoration of the " +
+		"alphabet {/*c*/ after prev token, //c after prev token, /*c*/ on own line, //c on own line, /*c*/ glued before next token, " +
+		"detached //c between blank lines, blank line, line break, ';', removal of the gap's whitespace} one variant; thorough adds every " +
+		"pair of decorations in every two gaps at distance 1 and 2. A case is counted (distinct, by text hash) when the variant parses; " +
+		"variants that do not parse are skipped and counted. Inserted comment words are unique per (gap, decoration).")
+	r.Assume("lexical variety is the decoration alphabet applied to the seed corpus, not arbitrary text")
+	r.Assume("descriptor equality is checked on the unlinked descriptor (parser.ResultFromAST, validate=false, SourceCodeInfo cleared); " +
+		"imports compared as a set; file-level options compared after a stable sort by option name (same-name options must keep their order)")
+	r.Assume("inputs that import one path more than once do not compile (protocompile validateImports rejects them): for those only the set of import paths is compared, not public/weak flags")
+	r.Assume("comment identity = comment text without delimiters, whitespace-collapsed (the formatter may turn //x into /* x */ and re-indent block comments)")
+	r.Assume("attachment oracle uses protoc's attribution rules as implemented by protocompile/sourceinfo and is only demanded for comments that those rules attach to a declaration in the input, matched by element names; role changes (leading/trailing/detached) on the same declaration are counted, not reported")
+
+	seeds, err := loadSeeds()
+	if err != nil {
+		r.Incomplete("cannot load seeds: " + err.Error())
+		return
+	}
+	var usable []*seed
+	seedsUnparseable := 0
+	for i := range seeds {
+		s := &seeds[i]
+		if s.Text == "" {
+			// the empty file: checked as a plain case below, no gaps
+			s.toks = nil
+			usable = append(usable, s)
+			continue
+		}
+		if err := tokenise(s); err != nil {
+			seedsUnparseable++
+			if strings.HasPrefix(s.Name, "own/") {
+				r.Incomplete("own seed does not parse: " + s.Name + ": " + err.Error())
+			}
+			continue
+		}
+		usable = append(usable, s)
+	}
+	e := &explorer{r: r}
+
+	type work struct {
+		s *seed
+		g int
+	}
+	var items []work
+	totalGaps := 0
+	var seen sync.Map // per-seed text hash de-duplication
+	dedup := func(s *seed, text string) bool {
+		key := s.Name + "\x00" + fmt.Sprint(hashText(text))
+		_, loaded := seen.LoadOrStore(key, true)
+		return loaded
+	}
+	// phase 1: the undecorated seeds (their violations are the baseline for the variants)
+	r.ParallelFor(len(usable), 0, func(i int) {
+		s := usable[i]
+		defer func() {
+			if p := recover(); p != nil {
+				r.Incomplete(fmt.Sprintf("harness panic on seed %s: %v", s.Name, p))
+			}
+		}()
+		e.st.variants.Add(1)
+		dedup(s, s.Text)
+		r.Distinct(s.Name + "\x00" + s.Text)
+		e.check(Case{Seed: s.Name, Context: "seed", Input: s.Text, hint: -1, site: "seed"}, nil, true)
+	})
+	for _, s := range usable {
+		for g := range s.toks {
+			items = append(items, work{s, g})
+		}
+		totalGaps += len(s.toks)
+	}
+	e.cliPhase(usable)
+
+	pairs := !r.Quick()
+	nd := len(decorations)
+	// phase 2: every gap x every decoration
+	r.ParallelFor(len(items), 0, func(i int) {
+		w := items[i]
+		defer func() {
+			if p := recover(); p != nil {
+				r.Incomplete(fmt.Sprintf("harness panic on seed %s gap %d: %v", w.s.Name, w.g, p))
+			}
+		}()
+		for d := 0; d < nd; d++ {
+			e.st.variants.Add(1)
+			text, tags, ok := variant(w.s, []int{w.g}, []int{d})
+			if !ok {
+				e.st.notApplicable.Add(1)
+				continue
+			}
+			if dedup(w.s, text) {
+				e.st.duplicateText.Add(1)
+				continue
+			}
+			c := Case{Seed: w.s.Name, Gaps: []int{w.g}, Decorations: []string{decorations[d].name},
+				Context: decorations[d].name + "@" + gapContext(w.s, w.g), Input: text, hint: gapOffset(w.s, w.g), site: gapSite(w.s, w.g)}
+			e.check(c, tags, false)
+			e.st.perDecoration[d].Add(1)
+			r.Distinct(w.s.Name + "\x00" + text)
+			r.SampleEvery(i*nd+d, 7919, func() any {
+				return map[string]any{"seed": w.s.Name, "gap": w.g, "decoration": decorations[d].name, "context": c.Context}
+			})
+		}
+	})
+	// phases 3, 4 (thorough): every pair of decorations in gaps (g, g+1), then in gaps (g, g+2)
+	maxDist := 0
+	if pairs {
+		maxDist = 2
+	}
+	for dist := 1; dist <= maxDist && !r.Expired(); dist++ {
+		r.ParallelFor(len(items), 0, func(i int) {
+			w := items[i]
+			defer func() {
+				if p := recover(); p != nil {
+					r.Incomplete(fmt.Sprintf("harness panic on seed %s gaps %d,%d: %v", w.s.Name, w.g, w.g+dist, p))
+				}
+			}()
+			if w.g+dist >= len(w.s.toks) {
+				return
+			}
+			for d1 := 0; d1 < nd; d1++ {
+				for d2 := 0; d2 < nd; d2++ {
+					e.st.variants.Add(1)
+					text, tags, ok := variant(w.s, []int{w.g, w.g + dist}, []int{d1, d2})
+					if !ok {
+						e.st.notApplicable.Add(1)
+						continue
+					}
+					if dedup(w.s, text) {
+						e.st.duplicateText.Add(1)
+						continue
+					}
+					c := Case{Seed: w.s.Name, Gaps: []int{w.g, w.g + dist},
+						Decorations: []string{decorations[d1].name, decorations[d2].name},
+						Context: "pair:" + decorations[d1].name + "@" + gapContext(w.s, w.g) + "+" +
+							decorations[d2].name + "@" + gapContext(w.s, w.g+dist),
+						Input: text, hint: gapOffset(w.s, w.g), site: gapSite(w.s, w.g)}
+					e.check(c, tags, false)
+					e.st.pairCases.Add(1)
+					r.Distinct(w.s.Name + "\x00" + text)
+				}
+			}
+		})
+	}
+
+	st := &e.st
+	r.Set("seeds_total", len(seeds))
+	r.Set("seeds_usable", len(usable))
+	r.Set("seeds_unparseable", seedsUnparseable)
+	r.Set("token_gaps", totalGaps)
+	r.Set("decoration_alphabet", func() []string {
+		var n []string
+		for _, d := range decorations {
+			n = append(n, d.name)
+		}
+		return n
+	}())
+	r.Set("pair_gap_distances", maxDist)
+	r.Set("pair_variants_formatted", st.pairCases.Load())
+	r.Set("variants_generated", st.variants.Load())
+	r.Set("variants_not_applicable", st.notApplicable.Load())
+	r.Set("variants_duplicate_text", st.duplicateText.Load())
+	r.Set("variants_unparseable_skipped", st.unparseable.Load())
+	r.Set("variants_formatted", st.formatted.Load())
+	r.Set("clause_output_differs_from_input", st.outputDiffersFromInput.Load())
+	r.Set("clause_descriptor_compared", st.descCompared.Load())
+	r.Set("clause_imports_reordered_by_formatter", st.importsReordered.Load())
+	r.Set("clause_imports_deduplicated_by_formatter", st.importsDeduped.Load())
+	r.Set("clause_import_flags_skipped_duplicate_imports", st.flagsSkippedDupImports.Load())
+	r.Set("clause_file_options_reordered_by_formatter", st.fileOptsReordered.Load())
+	r.Set("clause_comments_compared", st.commentsCompared.Load())
+	r.Set("clause_inserted_comments_tracked", st.tagsTracked.Load())
+	r.Set("clause_attachment_eligible_comments", st.attachEligible.Load())
+	r.Set("clause_attachment_demanded", st.attachDemanded.Load())
+	r.Set("clause_inserted_comment_attached_to_declaration", st.tagAttachedInInput.Load())
+	r.Set("clause_attachment_role_changed_same_declaration", st.roleChanged.Load())
+	r.Set("clause_detached_comments_not_demanded", st.detachedNotDemanded.Load())
+	r.Set("violations_inherited_from_seed_not_rereported", st.inheritedFromSeed.Load())
+	r.Set("clause_idempotence_checked", st.idemChecked.Load())
+	per := map[string]int64{}
+	for i, d := range decorations {
+		per[d.name] = st.perDecoration[i].Load()
+	}
+	r.Set("formatted_per_decoration", per)
+
+	// vacuity guards
+	for name, n := range map[string]int64{
+		"descriptor comparison":            st.descCompared.Load(),
+		"imports reordered":                st.importsReordered.Load(),
+		"file options reordered":           st.fileOptsReordered.Load(),
+		"inserted comments tracked":        st.tagsTracked.Load(),
+		"inserted comment attached":        st.tagAttachedInInput.Load(),
+		"idempotence":                      st.idemChecked.Load(),
+		"formatter changed the input text": st.outputDiffersFromInput.Load(),
+	} {
+		if n == 0 {
+			r.Incomplete("clause never exercised: " + name)
+		}
+	}
+	for i, d := range decorations {
+		if st.perDecoration[i].Load() == 0 {
+			r.Incomplete("decoration never produced a parseable variant: " + d.name)
+		}
+	}
+}
